@@ -36,6 +36,9 @@ func lifted(id string) bool {
 	if id == "D17" {
 		return true // repaired in /repo (268f873): nested boxes / several text nodes with overflow-wrap compared again
 	}
+	if id == "D20" {
+		return true // repaired in /repo (3f1a8ee): nowrap after a box with a collapsed trailing space compared again
+	}
 	for _, s := range strings.Split(os.Getenv("C11_LIFT"), ",") {
 		if s == id || s == "all" {
 			return true
